@@ -2,14 +2,18 @@
 (***************************************************************************)
 (* The JSON boundary between the harness and the trace specifications.     *)
 (* Long byte strings cross run-length encoded (a change of notation only): *)
-(* a byte string is a sequence of runs <<byte, count>>; a long blob value  *)
-(* is [rle |-> runs].  Everything is expanded before the specification     *)
+(* a byte string is [raw |-> bytes] or [rle |-> runs <<byte, count>>]; a   *)
+(* long blob value is [rle |-> runs].  Everything is expanded before the specification     *)
 (* proper sees it.                                                         *)
 (***************************************************************************)
 EXTENDS KafkaCodec
 
 ExpandRuns(runs) ==
   FlattenSeq([i \in 1..Len(runs) |-> [j \in 1..runs[i][2] |-> runs[i][1]]])
+
+\* a byte string at the boundary: [raw |-> <<bytes>>] or, when it has few long runs,
+\* [rle |-> <<<<byte, count>>, ...>>]
+Bytes(x) == IF "raw" \in DOMAIN x THEN x.raw ELSE ExpandRuns(x.rle)
 
 RECURSIVE ExpandV(_)
 ExpandV(v) ==
@@ -25,4 +29,7 @@ ToRuns(bs) ==
         THEN [acc EXCEPT ![Len(acc)] = <<c, @[2] + 1>>]
         ELSE Append(acc, <<c, 1>>)
   IN FoldLeft(step, <<>>, bs)
+
+\* for printing: raw when short, runs when long (long outputs of the samplers have few runs)
+PrintBytes(bs) == IF Len(bs) <= 1500 THEN [raw |-> bs] ELSE [rle |-> ToRuns(bs)]
 =============================================================================
